@@ -63,6 +63,9 @@ class ExprMixin:
     def list_append(self, lst, v):
         if not isinstance(lst, VList):
             raise Unsupported(f"append on {lst.ty}")
+        if isinstance(lst.e, list):
+            comps = flat(coerce(v, lst.elem_ty, "list element"))
+            return VList(lst.elem_ty, [z3.Concat(s_, z3.Unit(c)) for s_, c in zip(lst.e, comps)])
         ev = self.to_elem(v, lst.elem_ty)
         return VList(lst.elem_ty, z3.Concat(lst.e, z3.Unit(ev)))
 
@@ -262,6 +265,8 @@ class ExprMixin:
             return obj.items[obj.fields.index(attr)]
         if isinstance(obj, VOpaque) and obj.name.startswith("enum:") and attr == "value":
             return VClass(e=obj.e)
+        if isinstance(obj, VOpaque) and obj.name == "version" and attr in ("is_devrelease", "is_prerelease", "is_postrelease"):
+            return VBool(z3.Function("version_" + attr, z3.IntSort(), z3.BoolSort())(obj.e))
         if isinstance(obj, (VStr, VBytes, VList, VDict, VSet, VInt, VOpaque)):
             return VFunc("lib", f"method:{attr}", self_val=obj)
         if isinstance(obj, VOpt):
@@ -310,6 +315,18 @@ class ExprMixin:
         return VClass(e=st.class_of(obj.e))
 
     def read_field(self, st, obj, key, ty):
+        if not self.in_spec and key in self.cur[1].volatile:
+            # rely condition of the writer thread: the field is None until it is set once, afterwards it never changes.
+            # Every read in this thread therefore sees None or the final value; a value seen once is seen again.
+            last = st.ghost.get(("volatile", key))
+            v = fresh(ty, "volatile_" + key.split(".")[-1])
+            self.assume_wellformed(st, v)
+            if last is not None:
+                fl, fv = flat(last), flat(v)
+                notnone = z3.Not(fl[0]) if isinstance(last, VOpt) else fl[0] != 0
+                st.assume(z3.Implies(notnone, z3.And([a == b for a, b in zip(fl, fv)])))
+            st.ghost[("volatile", key)] = v
+            return v
         v = st.get_field(obj.e, key, ty)
         if not self.in_spec:
             self.assume_wf_read(st, v)
@@ -347,7 +364,7 @@ class ExprMixin:
             return val
         if isinstance(cont, (VList, VStr, VBytes)):
             i = self.as_int(idx)
-            n = z3.Length(cont.e)
+            n = seq_len(cont) if isinstance(cont, VList) else z3.Length(cont.e)
             si = z3.simplify(i)
             if z3.is_int_value(si) and si.as_long() < 0:
                 self.oblige(st, -si.as_long() <= n, f"index-in-range@{e.lineno}:{ast.unparse(e)[:50]}", kind="exception", line=e.lineno)
@@ -359,7 +376,7 @@ class ExprMixin:
                 )
                 i = si
             if isinstance(cont, VList):
-                val = elem_value(cont.elem_ty, cont.e[i])
+                val = seq_get(cont, i)
                 if not self.in_spec:
                     self.assume_wf_read(st, val)
                 return val
@@ -771,7 +788,14 @@ class ExprMixin:
         if is_all:
             return VBool(z3.ForAll([j], z3.Implies(cond, body)))
         q = z3.Exists([j], z3.And(cond, body))
-        insts = [z3.substitute(z3.And(cond, body), (j, c)) for c in cands[:8]]
+        # further witness candidates: the last index of every list in scope (an element that was just appended)
+        for nm, v in st.locals.items():
+            if isinstance(v, VList) and v.e is not None:
+                c = z3.simplify(seq_len(v) - 1)
+                if c.get_id() not in seen and len(cands) < 12:
+                    seen.add(c.get_id())
+                    cands.append(c)
+        insts = [z3.substitute(z3.And(cond, body), (j, c)) for c in cands[:12]]
         return VBool(z3.Or(insts + [q])) if insts else VBool(q)
 
     def mentions(self, e, v):
@@ -842,10 +866,10 @@ class ExprMixin:
         if isinstance(v, VList):
             if v.e is None:
                 return z3.IntVal(0), (lambda i, s: VNone()), v
-            n = z3.Length(v.e)
+            n = seq_len(v)
 
             def getter(i, s, v=v):
-                x = elem_value(v.elem_ty, v.e[i])
+                x = seq_get(v, i)
                 if not self.in_spec:
                     self.assume_wf_read(s, x)
                     if isinstance(x, VRef) and not x.nullable:
